@@ -33,6 +33,8 @@ def run(rep):
     rep.guard(i3, rep, w)
     rep.guard(i4, rep, w)
     rep.guard(i5, rep, w)
+    rep.guard(i6, rep, w)
+    rep.guard(i7, rep, w)
     import c10
     rep.guard(c10.v2, rep, w)     # a debug-only cap on probe steps: a long (legal) probe chain aborts string creation in the checked build
     rep.guard(c01.r1_support, rep, w)     # equality by identity needs the table to keep every string for good: an entry that is released lets a second object with the same text appear
@@ -295,3 +297,46 @@ def i5(rep, w):
         n += 1
         r.check(not used, f.path.replace('yarel::', ''), '%s uses %s: the hash of a string can depend on where its bytes are stored (or on how the buffer splits into words), so the same text hashes '
                 'differently as a fresh string and as a slice of another' % (f.path, used), f.loc())
+
+
+def i6(rep, w):
+    """"is this text already a string?" is answered by the table itself: every answer of the look-up - found or not found - comes after the probe
+    (find_index compares hash and bytes). A shortcut in front of it (a filter on length, a first-byte table, a bloom bit) answers "not there" from
+    a summary that insert has to keep exact for ever; the day it does not, an existing string is made a second time and `==` on equal texts is false."""
+    bind(w)
+    r = rep.rule('I6', 'the intern-table look-up answers only after the probe: no path returns before find_index', floor=1)
+    f = w.require_fn(STORE + '::get', 'C11')
+    probes = {bi for bi, t in f.calls() if callee_name(t) == SSMOD + '::find_index'}
+    if not probes:
+        # a look-up that probes through a helper of the table
+        probes = {bi for bi, t in f.calls() if (callee_name(t) or '').startswith(SSMOD + '::') and any(callee_name(t2) == SSMOD + '::find_index' for _, t2 in (w.fns[callee_name(t)].calls() if callee_name(t) in w.fns else []))}
+    r.check(bool(probes) and c01.all_paths_hit(f, None, probes), 'ObjStringStore::get: every path probes the table',
+            'ObjStringStore::get can answer without probing the table (a filter in front of find_index): an answer "not stored" that rests on a summary of what was '
+            'inserted lets a second object with the same text into the table', f.loc())
+
+
+def i7(rep, w):
+    """the string a text denotes is the one the table holds for it, or the one just allocated and put there: new_gc_obj_string (and any sibling
+    that makes strings) answers with nothing else - a remembered "recently made" string accepted on equal hash and length, say, is another
+    text's object."""
+    bind(w)
+    r = rep.rule('I7', 'every function that hands out an interned string answers with the table\'s entry or the object it has just allocated', floor=1)
+    n = 0
+    for f in sorted(w.yarel.fns.values(), key=lambda x: x.path):
+        if f.kind == 'Closure' or not any(callee_name(t) == STORE + '::get' for _, t in f.calls()):
+            continue
+        if f.crate.tstr(f.local_ty(0)) not in ('memory::Gc<object::ObjString>', 'yarel::memory::Gc<yarel::object::ObjString>'):
+            continue
+        n += 1
+        org = origins(f)
+        bad = []
+        for q in org.get(0, ()):
+            if q[0][0] == 'call' and (q[0][2] == STORE + '::get' or strip_generics(q[0][2]).endswith(('memory::Root::new', 'memory::Root::from', 'ObjStringStore::insert'))):
+                continue
+            toks = [x for x in q[1:] if not x.startswith(('@', 'as ', 'in ')) and x not in ('*', '0', '[]')]
+            bad.append('%s%s' % (q[0][2].rsplit('::', 1)[-1] if q[0][0] == 'call' else 'a field of the interpreter', (' ' + '.'.join(toks)) if toks else ''))
+        r.check(not bad, '%s / result comes from the table or the new allocation' % f.path.replace('yarel::', ''),
+                '%s can answer with a string obtained from %s: not the table\'s entry for this text, so equal texts can be different objects (or different texts the same object)'
+                % (f.path, sorted(set(bad))), f.loc())
+    if n == 0:
+        raise Broken('C11', 'anchor', 'no function that looks a text up in the intern table and returns a string handle')
